@@ -46,3 +46,4 @@ def run(ck, F, E):
     panics.recursion_rule(ck, F, G, seen, "C05")
     common.successor_rule(ck, F, "C05")
     C13.range_rule(ck, F, "C05")
+    C13.errpos_rules(ck, F, "C05")
